@@ -21,26 +21,38 @@ def _zero(e):
     return e[0] == "const" and e[1] in (0, 0.0)
 
 
-def degenerate_edges(fn, sym):
-    """edges (src,dst) taken exactly when some size expression is zero / non-positive"""
+def _degenerate_fact(cond, val):
+    """does (cond == val) say that some size expression is zero / non-positive?"""
+    c = cond
+    if c[0] != "bin":
+        return False
+    op, a, b = c[1], c[2], c[3]
+    if _zero(b) and _is_size_expr(a):
+        x_op = op
+    elif _zero(a) and _is_size_expr(b):
+        x_op = {"Lt": "Gt", "Gt": "Lt", "Le": "Ge", "Ge": "Le"}.get(op, op)
+    else:
+        return False
+    # x_op is the comparison `size OP 0`; degenerate when it implies size <= 0
+    if val is True and x_op in ("Eq", "Le", "Lt"):
+        return True
+    # Ge(x,0) false means x < 0 (impossible for unsigned, degenerate for floats)
+    return val is False and x_op in ("Ne", "Gt", "Ge")
+
+
+def degenerate_edges(fn, sym, prog=None):
+    """edges (src,dst) taken exactly when some size expression is zero / non-positive (directly,
+    or because a crate-local predicate returned a value it only returns in that case)"""
     out = set()
     for (p, s, cond, val) in sym.edge_facts():
-        c = cond
-        if c[0] != "bin":
-            continue
-        op, a, b = c[1], c[2], c[3]
-        if _zero(b) and _is_size_expr(a):
-            x_op = op
-        elif _zero(a) and _is_size_expr(b):
-            x_op = {"Lt": "Gt", "Gt": "Lt", "Le": "Ge", "Ge": "Le"}.get(op, op)
-        else:
-            continue
-        # x_op is the comparison `size OP 0`; edge is degenerate when it implies size <= 0
-        if val is True and x_op in ("Eq", "Le", "Lt"):
+        if _degenerate_fact(cond, val):
             out.add((p, s))
-        elif val is False and x_op in ("Ne", "Gt", "Ge"):
-            # Ge(x,0) false means x < 0 (impossible for unsigned, degenerate for floats)
-            out.add((p, s))
+            continue
+        if prog is not None and cond[0] in ("call", "callat") and isinstance(val, bool):
+            from .validators import alternatives_when
+            alts = alternatives_when(prog, cond, val)
+            if alts and all(any(_degenerate_fact(c_, v_) for c_, v_ in alt) for alt in alts):
+                out.add((p, s))
     return out
 
 
@@ -245,7 +257,7 @@ class MustWrite:
                 t, v = [x for x in verdicts if x[1][0] is None][0]
                 unknown_blocks[c.bb] = "callee %s undecided: %s" % (t.name, "; ".join(v[1][:2]))
         # paths entry -> return that avoid completing a write call
-        blocked_edges = set(degenerate_edges(fn, sym))
+        blocked_edges = set(degenerate_edges(fn, sym, self.prog))
         for b in write_blocks:
             for s_ in fn.succ[b]:
                 blocked_edges.add((b, s_))
